@@ -157,6 +157,11 @@ R(_K2, "t_d_i>=t_d3+R(1/D1+1/D2)-|a_i|/D2", "module docstring displayed inequali
 # that hard-codes the default t_d3 = 0 lets the first vector through (seeded change S-C20-1)
 R(_K2, "t_d_i>=t_d3+R(1/D1+1/D2)-|a_i|/D2 (t_d3 != 0)", "module docstring displayed inequality, with a non-default centre detonation time",
   violating=[{"t_d": [2.0, 1.0, 3.0, 1.0, 2.0]}, {"t_d": [2.0, 2.4, 3.0, 2.6, 2.0]}], admissible=[{"t_d": [2.0, 2.6, 3.0, 2.6, 2.0]}])
+# ... and with a NON-default outer detonation speed (D2 = 1.5: bound for the detonator at 5 is 3 (1/2 + 2/3) - 5/1.5 = 1/6; D2 = 0.5: bound
+# 3 (1/2 + 2) - 10 = -2.5): a threshold factored so that it is right only for D2 = 1 (seeded change S3-C20-1)
+R(_K2, "t_d_i>=t_d3+R(1/D1+1/D2)-|a_i|/D2 (D2 != 1)", "module docstring displayed inequality, with a non-default outer detonation speed",
+  violating=[{"D2": 1.5, "t_d": [2.0, 0.1, 0.0, 1.0, 2.0]}, {"D2": 0.5, "t_d": [2.0, -2.6, 0.0, 1.0, 2.0]}],
+  admissible=[{"D2": 1.5, "t_d": [2.0, 0.2, 0.0, 1.0, 2.0]}, {"D2": 0.5, "t_d": [2.0, -2.4, 0.0, 1.0, 2.0]}])
 R(_K3, "R>0", "constructor message 'Inert obstacle radius must be > 0'", violating=[{"R": -1.0}], boundary=[{"R": 0.0}], strict=True, admissible=[{"R": 0.1}])
 R(_K3, "D>0", "constructor message", violating=[{"D": -1.0}], boundary=[{"D": 0.0}], strict=True)
 R(_K3, "len(x_d)==geometry", "constructor message", violating=[{"x_d": (0.0, 0.0, 5.0)}, {"geometry": 3}])
@@ -260,6 +265,12 @@ D(_P, "t<=max(x)/wv_el", "_run message 'Elastic Wave went beyond xmax ... reduce
 # 1.816): a guard that tests the wrong (slower) front lets these through (seeded change S-C20-2)
 D(_P, "t<=max(x)/wv_el", "as above, 3 % beyond the guard", t=1.5825, pts=[0.2, 0.5, 1.0])
 D(_P, "t<=max(x)/wv_el", "as above, 13 % beyond the guard", t=1.74, pts=[0.2, 0.5, 1.0])
+# the same three probes with the default problem expressed in SI (Pa, kg/m^3, m/s, m, s): the transit then lasts 1.5e-6 s, and an
+# absolute cushion on the guard that is invisible in cm / microseconds is as large as t_max itself (seeded change S3-C20-2)
+_P_SI = {"G": 0.286e11, "Y": 0.0026e11, "rho0": 2790.0, "up": 100.0, "c0": 5330.0}
+D(_P, "t<=max(x)/wv_el (SI)", "as above in SI units, far beyond the guard", t=5.0e-6, pts=[0.002, 0.005, 0.01], base=_P_SI)
+D(_P, "t<=max(x)/wv_el (SI)", "as above in SI units, 3 % beyond the guard", t=1.5825e-6, pts=[0.002, 0.005, 0.01], base=_P_SI)
+D(_P, "t<=max(x)/wv_el (SI)", "as above in SI units, 13 % beyond the guard", t=1.74e-6, pts=[0.002, 0.005, 0.01], base=_P_SI)
 
 # =============================================================================================== Guderley / Rod1D (checked by the library at call time)
 _G = "guderley.guderley.Guderley"
